@@ -20,7 +20,7 @@ import ast
 from sa.astutil import dotted, methods_of
 from sa.flow import Flow, enumerate_paths, walk_shallow
 from sa.fold import AObj, ClassVal, FuncVal, Sym, _Abort, _Raise, _call_function
-from sa.repo import norm, qualname_of
+from sa.repo import norm, parent, qualname_of
 
 MAIN = 'beartype.claw._ast.clawastmain'
 MIXINS = [
@@ -170,6 +170,20 @@ def run(ctx):
             detail = f'decorates: {decor}; recurses on every return: {rec}' + (
                 f' (line {unrec[0].lineno} returns {norm(unrec[0].value) if unrec[0].value else None} without visiting the children)' if unrec else '')
         ctx.ob('C05.R2', f'visitor:{name}', mm.where(fn or tcls), f'{name} decorates and recurses', ok, detail)
+    vc = meths.get('visit_ClassDef') or meths.get(aliases.get('visit_ClassDef', ''))
+    if vc is not None:
+        decs = [x for x in walk_shallow(vc) if isinstance(x, ast.Call) and dotted(x.func) == 'self._decorate_node_beartype']
+        cond = []
+        for x in decs:
+            p_ = parent(x)
+            while p_ is not None and p_ is not vc:
+                if isinstance(p_, (ast.If, ast.IfExp, ast.BoolOp, ast.While, ast.Try)):
+                    cond.append(p_)
+                p_ = parent(p_)
+        ctx.ob('C05.R2', 'visit_ClassDef:every-scope', mm.where(cond[0] if cond else vc),
+               'classes are decorated at every scope — module, function and class body alike (a class nested in a class body is '
+               'used while the enclosing body still runs, before the enclosing class\'s own decorator could reach it)',
+               bool(decs) and not cond, f'decoration is conditional on `{norm(getattr(cond[0], "test", cond[0]))[:80]}`' if cond else 'no decoration')
     vf = meths.get('visit_FunctionDef')
     if vf is not None:
         guard = [norm(i.test) for i in walk_shallow(vf) if isinstance(i, ast.If)
